@@ -32,6 +32,7 @@ RULE += (' Peer-link cuts are told to both ends or to one end first (the other l
 RULE += (' A fifth configuration uses transports with bounded send buffers drained by the scheduler; both sides open subchannels, write 3..200 kB and close the wormhole at once or a little later.')
 RULE += (" In a quarter of the runs one side's application calls close() from inside a subchannel callback (connectionMade / dataReceived / connectionLost).")
 RULE += (' A sixth configuration cuts the peer link one-sidedly several times (the Follower is told to abandon a connection it still believes in) and lets close() land right at that moment in a third of those cases.')
+RULE += (" In a third of the runs the subchannel protocols are half-closeable; in half of the runs an application closes (or write-closes) one of its subchannels some time before the wormhole is closed. The seventh configuration lets the peer link go silent for good (bytes vanish, no end is told) while subchannels carry data.")
 LEVEL_TEXT = ("Seeded exploration. After faults stop, every close() that was "
               "called completes (closed notification) within 8000 events / "
               "600 simulated seconds; afterwards the closing side owns no "
@@ -67,6 +68,23 @@ def configs(tier):
          {"spake": "stub", "peer": "dilates", "focus": "silent"}]
 
 
+from twisted.internet.interfaces import IHalfCloseableProtocol  # noqa: E402
+from zope.interface import implementer  # noqa: E402
+
+
+@implementer(IHalfCloseableProtocol)
+class HalfRecProtocol(RecProtocol):
+    """An application protocol that accepts half-close: after the peer's
+    close it may go on writing (request half-closed, answer still going)."""
+
+    def readConnectionLost(self):
+        self.read_closed = True
+        self.side.on_sub_event(self, "read_lost", None)
+
+    def writeConnectionLost(self):
+        self.side.on_sub_event(self, "write_lost", None)
+
+
 class Owner:
     name = "X"
 
@@ -95,6 +113,10 @@ def run_one(seed, tape, opts):
     results = {"A": [], "B": []}     # subchannel connect()/listen() records
     owners = {"A": Owner(sim), "B": Owner(sim)}
 
+    # a third of the runs: applications whose subchannel protocols are
+    # half-closeable
+    pcls = HalfRecProtocol if tape.choose(3, "halfcls") == 0 or \
+        opts.get("half") else RecProtocol
     reuse_ep = {"A": tape.choose(2, "reuseA") == 0,
                 "B": tape.choose(2, "reuseB") == 0}
     ep_cache = {}
@@ -127,7 +149,7 @@ def run_one(seed, tape, opts):
                     ep = ep_cache[c.name] = c.dilated.connector_for("p")
             else:
                 ep = c.dilated.connector_for("p")
-            d = ep.connect(RecFactory(owners[c.name], "p", "opener"))
+            d = ep.connect(RecFactory(owners[c.name], "p", "opener", pcls))
             d.addCallbacks(lambda p: rec.__setitem__(1, "ok"),
                            lambda f: (rec.__setitem__(1, "failed"),
                                       rec.__setitem__(2, f.type)))
@@ -138,7 +160,7 @@ def run_one(seed, tape, opts):
             rec = ["listen", "pending", None, c.has("versions")]
             results[c.name].append(rec)
             d = c.dilated.listener_for("p").listen(
-                RecFactory(owners[c.name], "p", "acceptor"))
+                RecFactory(owners[c.name], "p", "acceptor", pcls))
             d.addCallbacks(lambda p: rec.__setitem__(1, "ok"),
                            lambda f: (rec.__setitem__(1, "failed"),
                                       rec.__setitem__(2, f.type)))
@@ -158,8 +180,23 @@ def run_one(seed, tape, opts):
                     n += 1
             if n:
                 sim.note("probe.bulk_write_before_close")
+        def do_sub_close(c=c):
+            # the application is done with one of its subchannels
+            live = [p for p in owners[c.name].protocols
+                    if p.made and not p.lost and not p.closed_local]
+            if live:
+                p = tape.pick(live, "subclose")
+                try:
+                    if pcls is HalfRecProtocol:
+                        p.transport.loseWriteConnection()
+                    else:
+                        p.transport.loseConnection()
+                    p.closed_local = True
+                    sim.note("probe.subchannel_closed_by_application")
+                except Exception as e:
+                    sim.note("probe.sub_close_refused." + type(e).__name__)
         return {"sub_connect": do_connect, "sub_listen": do_listen,
-                "sub_write": do_write}
+                "sub_write": do_write, "sub_close": do_sub_close}
     w.extra_ops = {}
     if react_kind is not None:
         cl = a if react_side == "A" else b
@@ -172,7 +209,8 @@ def run_one(seed, tape, opts):
         return run
     w.extra_ops = {"sub_connect": dispatch("sub_connect"),
                    "sub_listen": dispatch("sub_listen"),
-                   "sub_write": dispatch("sub_write")}
+                   "sub_write": dispatch("sub_write"),
+                   "sub_close": dispatch("sub_close")}
     backpressure = bool(opts.get("backpressure")) or \
         opts.get("focus") == "abandon"
     if backpressure:
@@ -213,6 +251,14 @@ def run_one(seed, tape, opts):
             ops.append(("sub_write",))
             if tape.choose(2, "linger2"):
                 ops.append(("wait_steps", tape.choose(60, "ls2")))
+        if dilates and tape.choose(2, "subclose?") == 0:
+            # one side's application closes a subchannel some time before
+            # the wormhole is closed (the peer's end, if half-closeable, is
+            # then read-closed and may still be writing)
+            ops.append(("wait_event_or_steps", "versions", 400))
+            ops.append(("wait_steps", 10 + tape.choose(120, "scw")))
+            ops.append(("sub_close",))
+            ops.append(("wait_steps", tape.choose(60, "scw2")))
         ops.append(("close",))
         if dilates and bulk and tape.choose(2, "late_write") == 0:
             # ... and goes on writing on its subchannels until it is told
